@@ -290,7 +290,16 @@ pub fn run_worker_sig(kind: &str, input: &Value, ctx: &Ctx, tag: &str, rss_cap_g
     let path = work_dir().join(format!("{}-{}-{}.json", std::process::id(), kind, tag));
     std::fs::write(&path, serde_json::to_vec(input).map_err(|e| (None, e.to_string()))?).map_err(|e| (None, e.to_string()))?;
     let remaining = ctx.wall_cap.checked_sub(ctx.start.elapsed()).map(|d| d.as_secs()).unwrap_or(0).max(1);
-    let out = std::process::Command::new(exe)
+    // output goes to files (a pipe would block a worker that prints more than the pipe holds while the parent
+    // polls); the worker is killed when it outlives the remaining wall-clock budget by 20 seconds: its own cap is
+    // only polled between operations, and an operation of the library that never returns must not hold the check
+    let (po, pe) = (path.with_extension("out"), path.with_extension("err"));
+    let files = (std::fs::File::create(&po), std::fs::File::create(&pe));
+    let (fo, fe) = match files {
+        (Ok(a), Ok(b)) => (a, b),
+        _ => return Err((None, "cannot create worker output files".into())),
+    };
+    let child = std::process::Command::new(exe)
         .arg("__worker")
         .arg(kind)
         .arg(&path)
@@ -299,10 +308,47 @@ pub fn run_worker_sig(kind: &str, input: &Value, ctx: &Ctx, tag: &str, rss_cap_g
         .env("VERIF_THREADS", "1")
         .env("VERIF_WALL_CAP_S", format!("{}", remaining))
         .env("VERIF_RSS_CAP_GIB", format!("{}", rss_cap_gib))
-        .output()
+        .stdout(fo)
+        .stderr(fe)
+        .spawn()
         .map_err(|e| (None, format!("cannot start worker: {}", e)));
-    let _ = std::fs::remove_file(&path);
-    let out = out?;
+    let mut child = match child {
+        Ok(c) => c,
+        Err(e) => {
+            let _ = std::fs::remove_file(&path);
+            return Err(e);
+        }
+    };
+    let deadline = std::time::Instant::now() + std::time::Duration::from_secs(remaining + 20);
+    let status = loop {
+        match child.try_wait() {
+            Ok(Some(st)) => break Ok(st),
+            Ok(None) => {
+                if std::time::Instant::now() > deadline {
+                    let _ = child.kill();
+                    let _ = child.wait();
+                    break Err(format!("worker {} {} was stopped {} s after its start: it outlived the remaining wall-clock budget (an operation that does not return, or a configuration too large for the budget)", kind, tag, remaining + 20));
+                }
+                std::thread::sleep(std::time::Duration::from_millis(20));
+            }
+            Err(e) => break Err(format!("waiting for worker {} {}: {}", kind, tag, e)),
+        }
+    };
+    let stdout = std::fs::read(&po).unwrap_or_default();
+    let stderr = std::fs::read(&pe).unwrap_or_default();
+    for f in [&path, &po, &pe] {
+        let _ = std::fs::remove_file(f);
+    }
+    let status = match status {
+        Ok(s) => s,
+        Err(e) => return Err((Some(-1), e)),
+    };
+    struct Out {
+        status: std::process::ExitStatus,
+        stdout: Vec<u8>,
+        stderr: Vec<u8>,
+    }
+    let out = Out { status, stdout, stderr };
     if !out.status.success() {
         return Err((out.status.signal(), format!("worker {} {} ended with {:?}: {}", kind, tag, out.status, String::from_utf8_lossy(&out.stderr).chars().rev().take(300).collect::<String>().chars().rev().collect::<String>())));
     }
